@@ -18,6 +18,15 @@ m['confirmed']={"ran":"tools/eval_seed.sh on a scratch copy of /repo HEAD: patch
 m['check_exit_with_seed']=int(chk) if chk.isdigit() else chk
 m['detected_by']=det
 m['first_violations']=[l.strip() for l in out.splitlines() if l.startswith('  ') and 'CHECK' not in l][:4]
+if det=='auto':
+    rules=[]
+    for l in m['first_violations']:
+        k=l.split(' at ')[0]
+        rule=':'.join(k.split(':')[:1])
+        if rule and rule not in rules: rules.append(rule)
+    m['detected_by']=' + '.join(rules) if rules else 'MISSED'
+if isinstance(m['check_exit_with_seed'],int) and m['check_exit_with_seed']!=1:
+    m['detected_by']='MISSED (check exit %s)'%m['check_exit_with_seed']
 json.dump(m,open(dst,'w'),indent=1)
 PY
 echo "kept $name (check exit $chk)"
